@@ -59,6 +59,8 @@ pub enum Op {
     ConstantPoint(JubJubExtended),
     PublicPoint(usize),
     PointFromRegs(Reg, Reg),
+    /// pushes the x and y coordinate witnesses of a point as scalar registers
+    PointCoords(PReg),
     AssertEqPoint(PReg, PReg),
     AssertEqPublicPoint(PReg, usize),
     AssertTorsionFree(PReg),
@@ -107,6 +109,7 @@ impl Op {
             Op::ConstantPoint(_) => "append_constant_point",
             Op::PublicPoint(_) => "append_public_point",
             Op::PointFromRegs(..) => "verif_point",
+            Op::PointCoords(_) => "point_coords",
             Op::AssertEqPoint(..) => "assert_equal_point",
             Op::AssertEqPublicPoint(..) => "assert_equal_public_point",
             Op::AssertTorsionFree(_) => "assert_torsion_free_point",
@@ -304,6 +307,11 @@ pub fn exec_op(op: &Op, inp: &Inputs, c: &mut Composer, r: &mut Regs) -> Result<
         Op::ConstantPoint(p) => r.p.push(c.append_constant_point(*p)?.into()),
         Op::PublicPoint(i) => r.p.push(c.append_public_point(inp.points[*i])?),
         Op::PointFromRegs(x, y) => r.p.push(Composer::verif_point(r.s[*x], r.s[*y])),
+        Op::PointCoords(p) => {
+            let wp = r.p[*p];
+            r.s.push(*wp.x());
+            r.s.push(*wp.y());
+        }
         Op::AssertEqPoint(a, b) => c.assert_equal_point(r.p[*a], r.p[*b]),
         Op::AssertEqPublicPoint(a, i) => c.assert_equal_public_point(r.p[*a], inp.points[*i])?,
         Op::AssertTorsionFree(a) => {
